@@ -15,3 +15,7 @@ reg("C09", "exploration",
     "Differential check of all 21 string-valued stock datatypes (plus existing-*/locale on a fixed tree) against hand-written reference conversions: complete for every string up to 5..8 characters over per-type class-representative alphabets, all 19^4 dotted quads over boundary octets, all letter-case variants of the boolean words; Hypothesis grammar strings up to length 200 with all one-edit neighbours, structured IPv6/host:port forms and full-Unicode text beyond. Idempotence of key-normalising converters.",
     "Trusted: zcv/refdt.py (written from docs/standard-datatypes.rst; no regular expressions; IPv6 validity cross-checked between a hand-written RFC 4291 recogniser, ipaddress and inet_pton -- disagreements are not compared). float() of the language is the float reference. 'Every length' is bounded enumeration + long generated strings, not a language-equivalence proof.",
     "exhaustive enumeration + Hypothesis grammar strings and one-edit neighbours vs. reference conversions (differential oracle)")
+reg("C05", "exploration",
+    "Model-based check of the %define namespace: every sequence of up to 3/4 steps over a 41-symbol alphabet (4 spellings of 3 names x 8 values, illegal names, 5 references, include begin/end) and up to 5/6 steps over a 12-symbol core alphabet, rendered into a main resource and up to 2 levels of included resources, loaded twice against one schema object and followed by a use-without-define probe; Hypothesis sequences up to 8 steps with arbitrary values. Complete for the enumerated sequences.",
+    "Trusted: zcv/model.py ref_read/ref_subst (one namespace, expansion at definition time, redefinition compared on expanded values). In-memory resources via an overridden ConfigLoader.openResource. U11 (names legal only after lower-casing) not compared.",
+    "exhaustive enumeration of directive sequences + Hypothesis sequences vs. reference namespace model; repeated-load (history) comparison")
